@@ -56,10 +56,25 @@ func VH_C02_resync() {
 	m.MkFile(src+"/e", v.Bytes("e", 1), 0600, 2, 2, mtimeChoices[0])
 	m.MkSymlink(src+"/l", "e", 1, 1, mtimeChoices[0])
 	m.SetMtime(src+"/d", mtimeChoices[1])
+	nFiles := 2
+	if v.Bool("listing-name-file") {
+		// an ordinary file that happens to carry the name of the metadata-only listing
+		m.MkFile(src+"/"+metadataPath, []byte("x"), 0644, 1, 1, mtimeChoices[0])
+		nFiles++
+		v.Cover("listing-name-file")
+	}
 	first := syncOnce(src, dest, DiffMetadata)
 	v.Assert(first.sendErr == nil && first.recvErr == nil, "the first transfer succeeds")
-	v.Assert(len(first.reqs) == 2, "the first transfer requests both regular files")
+	v.Assert(len(first.reqs) == nFiles, "the first transfer requests every regular file")
 	before := m.Snapshot(dest)
+	dataOf := func(p string) []byte {
+		for i := range before {
+			if before[i].Path == p {
+				return before[i].Data
+			}
+		}
+		return nil
+	}
 
 	mutation := v.Choose("mutation", 9)
 	changed := map[string]bool{}
@@ -80,13 +95,13 @@ func VH_C02_resync() {
 		nm := v.U32("newmode") & 07777
 		v.Assume(nm != 0600)
 		os.Remove(src + "/e")
-		m.MkFile(src+"/e", before[2].Data, nm, 2, 2, mtimeChoices[0])
+		m.MkFile(src+"/e", dataOf("e"), nm, 2, 2, mtimeChoices[0])
 		changed["e"] = true
 	case 5: // chown
 		nu := v.U32("newuid")
 		v.Assume(nu != 2)
 		os.Remove(src + "/e")
-		m.MkFile(src+"/e", before[2].Data, 0600, nu, 2, mtimeChoices[0])
+		m.MkFile(src+"/e", dataOf("e"), 0600, nu, 2, mtimeChoices[0])
 		changed["e"] = true
 	case 6: // delete
 		os.Remove(src + "/e")
@@ -98,7 +113,7 @@ func VH_C02_resync() {
 		os.Remove(src + "/d/f")
 		os.Remove(src + "/d")
 		m.MkDir(src+"/d", 0700, 1, 1, 5)
-		m.MkFile(src+"/d/f", before[1].Data, 0644, 1, 1, mtimeChoices[0])
+		m.MkFile(src+"/d/f", dataOf("d/f"), 0644, 1, 1, mtimeChoices[0])
 		m.SetMtime(src+"/d", mtimeChoices[1])
 		changed["d"] = true
 	}
